@@ -66,9 +66,12 @@ PROPS = {
         "level_text": "Partial. The formatter is IR construction (about 10 k lines of rules, not modelled) followed by the printer. "
                       "Kernel-checked theorems about an executable model of the IR and the printer (print_doc with its state, "
                       "fits_impl, has_hard_line, print_fill, print_align_group, line suffixes, pending indentation): for every "
-                      "configuration, fuel and IR without IfBreak/LineSuffix the printer's output has exactly the non-whitespace bytes "
-                      "of the IR's text leaves in document order (it can neither drop, reorder nor invent text; groups, indents, fills "
-                      "and align groups in both modes), an IR without text prints whitespace only, and ir_flat_width sees text lengths "
+                      "configuration, fuel and EVERY IR the non-whitespace bytes of the printer's output are the bytes of a derivation "
+                      "that leaves open only the mode of each group/fill part: text leaves in document order, an IfBreak contributes the "
+                      "branch selected by the mode its group recorded, a LineSuffix is emitted at the next line break or at the single "
+                      "final flush, pending suffixes in push order (print_atoms at full strength; corollary: a trailing comment at the "
+                      "end of the IR is always printed, last); in closed form for IRs without IfBreak/LineSuffix the output has exactly "
+                      "the leaves' bytes in order; an IR without text prints whitespace only, and ir_flat_width sees text lengths "
                       "only. Tie: every run the real printer (hook H5) and the model print the IRs the real formatter builds for the "
                       "corpus and seeded random IRs over all node kinds, byte for byte. Whether the rule set puts every token into the "
                       "IR is decided by search: reformat_lua_code on generated valid Lua (incl. operator/number adjacency, "
@@ -80,8 +83,8 @@ PROPS = {
                       "picked up), and random combinations; the hand-written corpus meets every configuration — must reparse, keep the normalised token sequence and the comment structure, "
                       "and return erroneous input unchanged.",
         "level_note": "Trusted: Lean kernel, harness (generator, parser-based token normaliser), correspondence run as the tie, the "
-                      "hook's ir_to_sexpr exporter (source nodes/tokens are resolved to the text they print). Not proved: IfBreak "
-                      "selection and LineSuffix reordering in print_atoms (exercised by the tie only); IR construction (search only).",
+                      "hook's ir_to_sexpr exporter (source nodes/tokens are resolved to the text they print). Not proved: that the group modes chosen by fits are 'good' "
+                      "(any mode assignment satisfies the atoms theorem); IR construction (search only).",
         "trusted_base": ["correspondence run (Printer model vs Printer::print through verif::format_to_ir / ir_to_sexpr / print_ir)",
                          "token normaliser of the harness (statement ';', trailing table separators, quote style, single-argument call parentheses, blanks inside comments are the only differences ignored)"],
         "assumptions": ["Lua 5.5 syntax level for all inputs", "indent string and newline string of the configuration are whitespace (tabs/spaces, \\n or \\r\\n)"],
